@@ -325,8 +325,9 @@ pub fn run(r: &mut Runner) {
             p.ua = p.ua.into_iter().step_by(3).collect();
             p.ub = p.ub.into_iter().step_by(3).collect();
         } else {
-            p.ua = p.ua.into_iter().step_by(5).collect();
-            p.ub = p.ub.into_iter().step_by(5).collect();
+            p.deltas = vec![0, 1, -1, 2, -2, 3, -3, 5, 8, 13, 21, 26, 27, 34, 40, 50, 51, 52, -52, 53, -53, 54, -54, 55, 60, 64, 80, 100, 105, 106, -106, 107, -107, 108, 110, 150, -150, 500, -500, 1000, -1000, 1990, -1990];
+            p.ua = p.ua.into_iter().step_by(7).collect();
+            p.ub = p.ub.into_iter().step_by(7).collect();
         }
         let bin2 = bin.clone();
         r.notes.push(format!("depth-1 binary: unit alphabets {}x{} scaled to {} (e0, delta) combinations x {} binary entry points (TwoFloat/TwoFloat, TwoFloat/f64, f64/TwoFloat, constructors)", p.ua.len(), p.ub.len(), p.nchunks(), bin.len()));
